@@ -185,6 +185,9 @@ func (g *genState) node(depth int, cfg bool) *Node {
 			l.Children = append(l.Children, k)
 		}
 		l.Children = append(l.Children, g.children(rapid.IntRange(0, g.o.MaxChildren-1).Draw(t, "nchildren"), depth+1, cfg)...)
+		if len(l.Children) == 0 {
+			l.Children = append(l.Children, g.leaf(cfg)) // a keyless list needs some content (the grammar has no empty body)
+		}
 		return l
 	case "choice":
 		ch := &Node{Kind: "choice", Name: g.name("ch")}
